@@ -179,6 +179,14 @@ let dispatch (cmd : string) (t : tree) : tree =
       let h = match as_list hyper with [d; n] -> { Transf.h_dom = opt d; Transf.h_dist = opt n } | _ -> failwith "hyper" in
       let ch = r_list mk chain in
       L [w_qs (SL.map (QcRun.q_normalize ch h) (r_qs xs)); w_qs (SL.map (QcRun.q_denormalize ch h) (r_qs ys))]
+  | "sched_gather", [rs; sigma] ->
+      (* rs: per task [] (raised) or [value]; the task function returns the precomputed result of its slot *)
+      let rs = r_list (fun t -> match as_list t with [] -> None | [v] -> Some (r_z v) | _ -> failwith "result") rs in
+      let xs = SL.mapi (fun i _ -> i) rs in
+      let f i = SL.nth rs i in
+      (match Sched.executor_path f xs (r_list r_nat sigma) with
+       | None -> L []
+       | Some out -> L [w_list (fun r -> match r with None -> L [] | Some v -> L [w_z v]) out])
   | "shape_loop", [shapes] -> w_list w_nat (Shape.loop_shape (r_list r_shape shapes))
   | "shape_fmt_input", [l; s; data] -> w_list (w_list w_z) (Shape.fmt_input (r_shape l) (r_shape s) (r_list r_z data))
   | "shape_out", [l; o] -> w_list w_nat (Shape.fmt_output_shape (r_shape l) (r_shape o))
